@@ -147,3 +147,65 @@ Proof.
   vm_compute. repeat split; try reflexivity.
   repeat constructor; intros [H1 H2]; discriminate.
 Qed.
+
+(** ** the closed-connection entry of connection k goes away when ITS timer fires, whatever
+    happens under other IDs and whichever other timers fire in between *)
+Definition elsewhere (id : Z) (o : rgop) : Prop :=
+  match o with
+  | RgExpire _ _ => True
+  | RgDial _ i | RgClose _ i | RgDestroy _ i => i <> id
+  end.
+
+Lemma has_timer_drop_other k id k' i l :
+  ~ (i = id /\ k' = k) -> has_timer k id l = true -> has_timer k id (drop_timer k' i l) = true.
+Proof.
+  intros Hn. induction l as [|[a b] r IH]; cbn; [auto|]. intros H.
+  destruct ((a =? i) && (b =? k')) eqn:E1.
+  - apply andb_true_iff in E1 as [Ea Eb]. apply Z.eqb_eq in Ea, Eb. subst a b.
+    apply orb_true_iff in H as [H|H]; [|exact H].
+    apply andb_true_iff in H as [Ha Hb]. apply Z.eqb_eq in Ha, Hb. subst. exfalso. apply Hn. split; reflexivity.
+  - cbn. apply orb_true_iff in H as [H|H]; [rewrite H; reflexivity|]. rewrite (IH H). apply orb_true_r.
+Qed.
+
+Definition tomb_inv (k id : Z) (st : rgstate) : Prop :=
+  route st id = None \/ (route st id = Some (Tomb k) /\ has_timer k id (rgTimers st) = true).
+
+Lemma tomb_inv_step k id st o : elsewhere id o -> tomb_inv k id st -> tomb_inv k id (rgstep st o).
+Proof.
+  unfold tomb_inv, route. destruct o as [k' i|k' i|k' i|k' i]; cbn [rgstep elsewhere]; intros He Hi.
+  - unfold rgdial. destruct (lookup i (rgMap st)) as [[j|j]|]; cbn [fst rgMap rgTimers]; try exact Hi;
+      rewrite lookup_set_other by exact He; exact Hi.
+  - cbn [rgMap rgTimers]. rewrite lookup_set_other by exact He.
+    destruct Hi as [Hi|[Hi Ht]]; [left; exact Hi | right; split; [exact Hi|]]. cbn. rewrite Ht. apply orb_true_r.
+  - cbn [rgMap rgTimers]. rewrite lookup_remove_other by exact He. exact Hi.
+  - destruct (has_timer k' i (rgTimers st)) eqn:Eh; [|exact Hi]. cbn [rgMap rgTimers].
+    destruct (Z.eq_dec i id) as [->|Hne].
+    + destruct Hi as [Hi|[Hi Ht]].
+      * rewrite Hi. left. exact Hi.
+      * rewrite Hi. cbn [handler_eqb]. destruct (k =? k') eqn:Ek.
+        -- left. apply lookup_remove_same.
+        -- right. split; [exact Hi|]. apply has_timer_drop_other; [|exact Ht].
+           intros [_ ->]. rewrite Z.eqb_refl in Ek. discriminate.
+    + assert (Hl : lookup id (match lookup i (rgMap st) with
+                              | Some h => if handler_eqb h (Tomb k') then remove i (rgMap st) else rgMap st
+                              | None => rgMap st end) = lookup id (rgMap st)).
+      { destruct (lookup i (rgMap st)) as [h|]; [|reflexivity].
+        destruct (handler_eqb h (Tomb k')); [apply lookup_remove_other; exact Hne | reflexivity]. }
+      rewrite Hl. destruct Hi as [Hi|[Hi Ht]]; [left; exact Hi | right; split; [exact Hi|]].
+      apply has_timer_drop_other; [|exact Ht]. intros [-> _]. contradiction.
+Qed.
+
+Theorem tombstone_expires_reachable : forall ops st k id,
+  Forall (elsewhere id) ops ->
+  route (rgstep (rgrun (rgstep st (RgClose k id)) ops) (RgExpire k id)) id = None.
+Proof.
+  intros ops st k id Hf.
+  assert (H0 : tomb_inv k id (rgstep st (RgClose k id))).
+  { right. unfold route. cbn. rewrite Z.eqb_refl. cbn. rewrite !Z.eqb_refl. split; reflexivity. }
+  revert H0. generalize (rgstep st (RgClose k id)) as s.
+  induction Hf as [|o r Ho _ IH]; intros s Hs; cbn [rgrun fold_left].
+  - destruct Hs as [Hs|[Hs Ht]]; unfold route in *; cbn [rgstep].
+    + destruct (has_timer k id (rgTimers s)); [|exact Hs]. cbn [rgMap]. rewrite Hs. exact Hs.
+    + rewrite Ht. cbn [rgMap]. rewrite Hs. cbn [handler_eqb]. rewrite Z.eqb_refl. apply lookup_remove_same.
+  - apply IH. apply tomb_inv_step; assumption.
+Qed.
